@@ -245,11 +245,20 @@ impl<U: TimeUnitTrait> DateTime<U> {
             if dm < 0 {
                 unimplemented!("not support year before ce or negative month")
             }
+            // count months from January (zero based) so that periods dividing 12 start in
+            // January, and truncate to the first instant of the month before stepping back
             let dt_month = if flag {
-                (dt_year * 12 + dt.month()) as i32
+                (dt_year * 12 + dt.month0()) as i32
             } else {
-                dt_year as i32 * (-12) + dt.month() as i32
+                dt_year as i32 * (-12) + dt.month0() as i32
             };
+            dt = dt
+                .date_naive()
+                .with_day(1)
+                .unwrap()
+                .and_hms_opt(0, 0, 0)
+                .unwrap()
+                .and_utc();
             let delta_down = dt_month % dm;
             dt = match delta_down.cmp(&0) {
                 Ordering::Equal => dt,
